@@ -67,6 +67,11 @@ fn shape(rng: &mut Rng, idx: usize) -> (String, Option<Meta>) {
 			("playedOn".into(), MVal::Str("dolphin".into())),
 		])),
 		8 => ("json-hostile-strings".into(), Some(vec![("quote\"back\\slash".into(), MVal::Str("line\nbreak\ttab\u{1}\u{7f}".into())), ("\u{2028}\u{ffff}".into(), MVal::Str("😀\u{10ffff}é".into())), ("}U{S".into(), MVal::Str("}}U\u{8}metadata{".into()))])),
+		9 => {
+			// many maps in total (siblings, not depth): more maps than any depth limit
+			let n = *rng.pick(&[128usize, 130, 200, 400]);
+			("many-sibling-maps".into(), Some((0..n).map(|i| (format!("m{}", i), MVal::Map(if i % 3 == 0 { vec![] } else { vec![("a".into(), MVal::Map(vec![("b".into(), MVal::Int(i as i32))]))] }))).collect()))
+		}
 		_ => ("random-tree".into(), Some(gen::gen_meta(rng, 4, 5))),
 	}
 }
@@ -76,7 +81,7 @@ impl Monitor for C16 {
 		"C16"
 	}
 	fn rule(&self) -> String {
-		"metadata trees over {string <= 255 bytes of UTF-8, int32, map} are generated (absent, empty, nesting chains 2..127 deep, wide maps, reverse-sorted and shuffled keys, 255-byte keys/strings, empty key/string, int32 extremes, JSON-hostile and multi-byte strings, realistic Slippi shapes, random trees) and encoded with the harness's own UBJSON encoder into replays of several versions. Oracle: (1) game.metadata iterates to the same ordered tree; (2) slippi::write reproduces the file; (3) metadata.json inside the .slpp (extracted with an independent tar reader, parsed with an order-aware JSON parser) is the same ordered tree, or null when absent; (4) the game read back from .slpp has the same ordered tree and serialises to the original bytes; (5) no metadata is reported as None before and after the .slpp trip. One evaluation = one tree. distinct = shape x depth x size classes.".into()
+		"metadata trees over {string <= 255 bytes of UTF-8, int32, map} are generated (absent, empty, nesting chains 2..127 deep, wide maps, hundreds of sibling sub-maps, reverse-sorted and shuffled keys, 255-byte keys/strings, empty key/string, int32 extremes, JSON-hostile and multi-byte strings, realistic Slippi shapes, random trees) and encoded with the harness's own UBJSON encoder into replays of several versions. Oracle: (1) game.metadata iterates to the same ordered tree; (2) slippi::write reproduces the file; (3) metadata.json inside the .slpp (extracted with an independent tar reader, parsed with an order-aware JSON parser) is the same ordered tree, or null when absent; (4) the game read back from .slpp has the same ordered tree and serialises to the original bytes; (5) no metadata is reported as None before and after the .slpp trip. One evaluation = one tree. distinct = shape x depth x size classes.".into()
 	}
 	fn assumptions(&self) -> Vec<String> {
 		vec!["the harness does not enable serde_json/preserve_order; serde_json::Map iteration order is whatever peppi's build gives it".into(), "nesting is bounded by 127 (serde_json's recursion limit, which .slpp imposes)".into()]
